@@ -309,7 +309,12 @@ func init() {
 			s2job("c07-create-vs-create", b2, budget),
 			s2job("c07-join-vs-leave-nonlast", b2, budget),
 		}
-		return append(jobs, s2sharded("c07-lastleave-lastleave-create", b3, budget, 11)...)
+		ld := 6
+		if tier == "thorough" {
+			ld = 8
+		}
+		jobs = append(jobs, s1job("lifecycle", ld, []string{"C07"}, 4, budget))
+		return append(jobs, s2sharded("c07-lastleave-lastleave-create", b3, budget, 10)...)
 	}, check.PropInfo{
 		Rule: "S2: per scenario a setup history, then 2-3 requests fired at once; every interleaving of the connections' main-loop threads and session frame workers at lock/channel granularity with at most `bound` preemptions is executed on the real server (receiver/sender threads run eagerly); a state is one complete execution, a transition one choice point; distinct = distinct per-client message-type sequences. S1: BFS over join/switch/leave histories.",
 		Assumptions: []string{
